@@ -25,6 +25,7 @@ pub fn dispatch(op: &str, req: &Value) -> Value {
         "context" => context(req),
         "ron_roundtrip" => ron_roundtrip(req),
         "zerv_roundtrip" => zerv_roundtrip(req),
+        "find_root" => find_root(req),
         _ => json!({"error": format!("unknown op {op}")}),
     }
 }
@@ -459,4 +460,31 @@ fn zerv_roundtrip(req: &Value) -> Value {
     json!({"ok": true, "emitted": emitted, "emitted2": z2.to_string(),
            "object": format!("{:?}|{:?}", z, z.schema.precedence_order().to_vec()),
            "object2": format!("{:?}|{:?}", z2, z2.schema.precedence_order().to_vec())})
+}
+
+
+/// repository discovery on a real directory tree from a given current directory (C14 replay): builds
+/// <tmp>/r/s/t, <tmp>/x/y and <tmp><root>/.git, changes into the requested directory (or into a directory that is then
+/// removed, so that getcwd fails), calls find_vcs_root_with_limit on the start path, and changes back to `/`
+fn find_root(req: &Value) -> Value {
+    use std::fs;
+    let base = std::env::temp_dir().join(format!("verif_c14_{}_{}", std::process::id(), req["nonce"].as_u64().unwrap_or(0)));
+    let _ = fs::remove_dir_all(&base);
+    let b = base.to_str().unwrap().to_string();
+    for d in ["r/s/t", "x/y"] { fs::create_dir_all(base.join(d)).unwrap(); }
+    if let Some(root) = req["root"].as_str() { fs::create_dir_all(format!("{b}{root}/.git")).unwrap(); }
+    let start = req["start"].as_str().unwrap();
+    let start_path = if start.starts_with('/') { format!("{b}{start}") } else { start.to_string() };
+    let depth = req["depth"].as_u64().map(|d| d as usize);
+    match req["cwd"].as_str() {
+        Some(c) => std::env::set_current_dir(format!("{b}{c}")).unwrap(),
+        None => { let g = base.join("gone"); fs::create_dir_all(&g).unwrap(); std::env::set_current_dir(&g).unwrap(); fs::remove_dir(&g).unwrap(); }
+    }
+    let r = zerv::vcs::find_vcs_root_with_limit(std::path::Path::new(&start_path), depth);
+    std::env::set_current_dir("/").unwrap();
+    let _ = fs::remove_dir_all(&base);
+    match r {
+        Ok(p) => json!({"ok": true, "root": p.to_str().unwrap().strip_prefix(&b).map(|x| x.to_string()).unwrap_or_else(|| p.to_str().unwrap().to_string())}),
+        Err(e) => json!({"ok": false, "err": e.to_string()}),
+    }
 }
